@@ -773,11 +773,27 @@ theorem lpDict_keys {rec : Rec} {vs : List Id} {old new : Id} (hrec : RecOK rec)
 theorem getObj_eq {i : Id} {s : St} {o : Obj} (h : s.heap[i]? = some o) : getObj i s = .ok (o, s) := by
   unfold getObj; rw [h]
 
+theorem sameType_func {dyn : List (Id × DynTy)} {h : List Obj} {a b : Id} {n m c d dc di ce fv n' m' c' d' dc' di' ce' fv'}
+    (ha : h[a]? = some (.func n m c d dc di ce fv)) (hb : h[b]? = some (.func n' m' c' d' dc' di' ce' fv')) :
+    sameType dyn h a b = true := by
+  unfold sameType; rw [ha, hb]; rfl
+
+theorem sameType_dict {dyn : List (Id × DynTy)} {h : List Obj} {a b : Id} {e e'}
+    (ha : h[a]? = some (.dict e)) (hb : h[b]? = some (.dict e')) :
+    sameType dyn h a b = (dynOf dyn a == dynOf dyn b) := by
+  unfold sameType; rw [ha, hb]
+
+theorem sameType_cls {dyn : List (Id × DynTy)} {h : List Obj} {a b : Id} {n m sl bs aa n' m' sl' bs' aa'}
+    (ha : h[a]? = some (.cls n m sl bs aa)) (hb : h[b]? = some (.cls n' m' sl' bs' aa')) :
+    sameType dyn h a b = (dynOf dyn a == dynOf dyn b) := by
+  unfold sameType; rw [ha, hb]
+
 theorem resolveKind_dict {cx : Ctx} {rec : Rec} {vs : List Id} {D N : Id} {s : St} {ed en : List (Str × Id)}
-    (hD : s.heap[D]? = some (.dict ed)) (hN : s.heap[N]? = some (.dict en)) :
+    (hD : s.heap[D]? = some (.dict ed)) (hN : s.heap[N]? = some (.dict en))
+    (hdyn : dynOf cx.dyn D = dynOf cx.dyn N) :
     resolveKind cx rec vs D N false s = .ok (some .dict, s) := by
   unfold resolveKind
-  simp [M.bind, getObj_eq hD, getObj_eq hN, getSt, defModule, hN, hD, sameType, Obj.kind, M.pure]
+  simp [M.bind, getObj_eq hD, getObj_eq hN, getSt, defModule, hN, hD, sameType_dict hD hN, hdyn, Obj.kind, M.pure]
 
 theorem cacheGet_miss {k : Id × Id} {s : St} (h : s.cache.find? (fun e => e.1 = k) = none) :
     cacheGet k s = .ok (none, s) := by
@@ -788,6 +804,7 @@ theorem cacheGet_miss {k : Id × Id} {s : St} (h : s.cache.find? (fun e => e.1 =
 theorem lp_dict_keys {cx : Ctx} {fuel : Nat} {vs : List Id} {D N : Id} {s s' : St} {r : Id}
     {ed en : List (Str × Id)} (hne : D ≠ N) (hvs : D ∉ vs) (hc : s.cache.find? (fun e => e.1 = (D, N)) = none)
     (hD : s.heap[D]? = some (.dict ed)) (hN : s.heap[N]? = some (.dict en))
+    (hdyn : dynOf cx.dyn D = dynOf cx.dyn N)
     (h : lp cx fuel false vs D N s = .ok (r, s')) :
     r = D ∧ ∃ e', s'.heap[D]? = some (.dict e') ∧ ∀ k, hasKey k e' = hasKey k en := by
   cases fuel with
@@ -809,7 +826,7 @@ theorem lp_dict_keys {cx : Ctx} {fuel : Nat} {vs : List Id} {D N : Id} {s s' : S
     unfold dispatch at h3
     simp only [bind_eq, pure_eq] at h3
     obtain ⟨k, s4, h7, h8⟩ := bind_ok.mp h3
-    rw [resolveKind_dict hD hN] at h7
+    rw [resolveKind_dict hD hN hdyn] at h7
     cases h7
     simp only at h8
     exact lpDict_keys (s' := s2) (fun vs o nw => lp_frame cx n false vs o nw) (List.mem_append_right _ (List.mem_singleton.mpr rfl)) hN h8
@@ -829,6 +846,7 @@ theorem lp_module_names {cx : Ctx} {fuel : Nat} {Mo Mn D N : Id} {s s' : St} {r 
     (hM : Mo ≠ Mn) (hne : D ≠ N) (hc : s.cache = [])
     (hMo : s.heap[Mo]? = some (.module D)) (hMn : s.heap[Mn]? = some (.module N))
     (hD : s.heap[D]? = some (.dict ed)) (hN : s.heap[N]? = some (.dict en))
+    (hdyn : dynOf cx.dyn D = dynOf cx.dyn N)
     (h : lp cx fuel true [] Mo Mn s = .ok (r, s')) :
     r = Mo ∧ s'.heap[Mo]? = some (.module D) ∧
       ∃ e', s'.heap[D]? = some (.dict e') ∧ ∀ k, hasKey k e' = hasKey k en := by
@@ -864,7 +882,7 @@ theorem lp_module_names {cx : Ctx} {fuel : Nat} {Mo Mn D N : Id} {s s' : St} {r 
     have hDM : D ∉ ([] ++ [Mo] : List Id) := by
       simp only [List.nil_append, List.mem_singleton]
       intro e; subst e; rw [hMo] at hD; cases hD
-    have key := lp_dict_keys hne hDM (by rw [hc]; rfl) hD hN h13
+    have key := lp_dict_keys hne hDM (by rw [hc]; rfl) hD hN hdyn h13
     have Fd := lp_frame cx n false ([] ++ [Mo]) D N _ _ _ h13
     have keepM : s7.heap[Mo]? = some (.module D) := by
       rw [Fd.keep Mo (by simp) (prot_module hMo)]; exact hMo
@@ -924,8 +942,10 @@ theorem resolveKind_func {cx : Ctx} {rec : Rec} {vs : List Id} {fo fn : Id} {s :
     {n m c d dc di ce fv n' m' c' d' dc' di' ce' fv'}
     (hfo : s.heap[fo]? = some (.func n m c d dc di ce fv)) (hfn : s.heap[fn]? = some (.func n' m' c' d' dc' di' ce' fv')) :
     resolveKind cx rec vs fo fn false s = .ok (if patchable cx m m' then some .func else none, s) := by
+  have hdn : defModule s.heap fn = m' := by unfold defModule; rw [hfn]
+  have hdo : defModule s.heap fo = m := by unfold defModule; rw [hfo]
   unfold resolveKind patchable sameModule
-  simp only [bind_eq, pure_eq, M.bind, getObj_eq hfo, getObj_eq hfn, getSt, defModule, hfn, hfo, sameType, Obj.kind]
+  simp only [bind_eq, pure_eq, M.bind, getObj_eq hfo, getObj_eq hfn, getSt, hdn, hdo, sameType_func hfo hfn, Obj.kind]
   cases hA : (cx.modname.isSome && m'.isSome && m' != cx.modname) <;>
     cases hB : (cx.modname.isSome && m.isSome && m != cx.modname) <;>
     cases h52 : cx.fx.d52 <;> simp <;> rfl
@@ -1174,10 +1194,13 @@ theorem cls_keys_sync (fx : Fixes) (a a' : List (Str × Id)) (k : Str) :
 
 theorem resolveKind_cls {cx : Ctx} {rec : Rec} {vs : List Id} {co cn : Id} {s : St}
     {n m sl b a n' m' sl' b' a'}
-    (hco : s.heap[co]? = some (.cls n m sl b a)) (hcn : s.heap[cn]? = some (.cls n' m' sl' b' a')) :
+    (hco : s.heap[co]? = some (.cls n m sl b a)) (hcn : s.heap[cn]? = some (.cls n' m' sl' b' a'))
+    (hdyn : dynOf cx.dyn co = dynOf cx.dyn cn) :
     resolveKind cx rec vs co cn false s = .ok (if patchable cx m m' then some .cls else none, s) := by
+  have hdn : defModule s.heap cn = m' := by unfold defModule; rw [hcn]
+  have hdo : defModule s.heap co = m := by unfold defModule; rw [hco]
   unfold resolveKind patchable sameModule
-  simp only [bind_eq, pure_eq, M.bind, getObj_eq hco, getObj_eq hcn, getSt, defModule, hcn, hco, sameType, Obj.kind]
+  simp only [bind_eq, pure_eq, M.bind, getObj_eq hco, getObj_eq hcn, getSt, hdn, hdo, sameType_cls hco hcn, hdyn, Obj.kind]
   cases hA : (cx.modname.isSome && m'.isSome && m' != cx.modname) <;>
     cases hB : (cx.modname.isSome && m.isSome && m != cx.modname) <;>
     cases h52 : cx.fx.d52 <;> simp <;> rfl
